@@ -140,7 +140,7 @@ pub fn gen(args: &Args) {
             p.rnd = r.range(0, 3) as usize;
             p.pol = r.range(0, 14) as usize;
             p.off[2] = r.range(-30, 30) * 60;
-            let fsite = Site { lat: r.range(-600_000, 600_000), lon: r.range(-1_800_000, 1_800_000), el: r.range(0, 2000), gmt: r.range(-24, 24) * 1800 };
+            let fsite = Site { dlat: 0, lat: r.range(-600_000, 600_000), lon: r.range(-1_800_000, 1_800_000), el: r.range(0, 2000), gmt: r.range(-24, 24) * 1800 };
             let fstart = date_of_dn(r.range(dn_of(ymd(1600, 1, 1)), dn_of(ymd(2398, 1, 1))));
             let fdr = DateRange::from(fstart..=(fstart + chrono::Duration::days(r.range(0, 40))));
             let doc = json!({"params": p.params(), "location": fsite.location(), "date_range": fdr});
@@ -159,7 +159,7 @@ pub fn gen(args: &Args) {
             }
             argv.push(format!("--input-file-path={}", in_path));
         } else if lat_c == "ok" && lon_c == "ok" && gmt_c == "ok" && (elev_c == "ok" || elev_c == "absent") && dates_c != "bad" {
-            let site = Site { lat: lat.v, lon: lon.v, el: 0, gmt: 0 };
+            let site = Site { dlat: 0, lat: lat.v, lon: lon.v, el: 0, gmt: 0 };
             let _ = site;
             let coords = Coordinates::new(
                 Latitude::try_from(lat.text.parse::<f64>().unwrap()).unwrap(),
